@@ -103,15 +103,14 @@ def from_bytes(b, order):
     items = b.items if order == 'big' else b.items[::-1]
     if all(isinstance(x, int) for x in items):
         return int.from_bytes(bytes(items), 'big')
-    total = None
+    total = 0
     n = len(items)
-    supp = 0
     for i, x in enumerate(items):
         sh = 8 * (n - 1 - i)
-        t = int_term(x) * (1 << sh)
-        total = t if total is None else total + t
-        supp |= 0xFF << sh
-    return mk_int(total, supp) if total is not None else 0
+        if isinstance(x, Sym) and (x.supp is None or x.supp > 255):
+            x = mk_int(x.t, 255)
+        total = total + (x << sh)      # disjoint byte pieces: keeps the piece normal form
+    return total
 
 
 def to_bytes(x, n, order):
